@@ -3,10 +3,13 @@
 Spec:   spec/Sql.tla: the table over a history of dumps; the writer as implemented (bloom filter "seen" set, insert buffer
         flushed before an UPDATE / when it exceeds the batch size / at the end, UPDATE ... WHERE key); TLC checks after every
         dump ModeOK (rewrite: exactly the dumped rows; append: previous ++ dumped; update: one row per key with the latest
-        values), Downstream (rows continue unchanged, in order), FlagsTruthful, NeverFlagsOutsideUpdate, for all histories
-        of <= 2 dumps x <= 2 rows x bloom on/off x batch sizes (thorough: + simulated histories of up to 5 dumps).
+        values), PairingOK (the writer reports every row once, in order), Downstream (rows continue unchanged, in order),
+        FlagsTruthful, NeverFlagsOutsideUpdate, for all histories of <= 2 dumps x <= 2 rows x bloom on/off x batch sizes
+        (thorough: + simulated histories of up to 5 dumps).  WriterGetsCopy = FALSE (the pinned dumper, which converted
+        array/object/fallback-typed cells in place) must be refuted by TLC on every run.
 Bind:   every exported history (quick: seeded sample) is replayed against a fresh on-disk SQLite database; after each dump
-        SELECT * (in rowid order), the rows delivered downstream and the updated flags must be the model's.
+        SELECT * (in rowid order), the rows delivered downstream (array, object and a fallback-typed yearmonth/duration cell included, compared
+        with the native values that entered the dumper) and the updated flags must be the model's.
 """
 import contextlib
 import io
@@ -19,18 +22,26 @@ from .. import tlc
 from ..common import Report, pmap, harness_errors, rng, setup_repo, canon
 
 PROP = 'C20'
-KF_JSON = 'C20-array-object-cells-continue-as-json-text'
+KF_JSON = 'C20-array-object-cells-continue-as-json-text'      # repaired (fix: commit); listed under 'fixed', so a reappearance is a VIOLATION
+KF_FALLBACK = 'C20-fallback-typed-column-on-existing-table'
 
 
 def model(rep, t):
     wd = tlc.workdir('c20')
-    cfg = tlc.write_cfg(os.path.join(wd, 'sql.cfg'), constants={'MaxDumps': 2, 'MaxRows': 2, 'Batches': '{1, 1000}'},
+    fixed = {'WriterGetsCopy': 'TRUE', 'Converts': 'TRUE'}
+    cfg = tlc.write_cfg(os.path.join(wd, 'sql.cfg'), constants=dict({'MaxDumps': 2, 'MaxRows': 2, 'Batches': '{1, 1000}'}, **fixed),
                         invariants=['AllDumpsOK'], constraints=['Export'])
     res = tlc.run_tlc('Sql', cfg, workers=1, allow_violation=False, timeout=6000)
     rep.add_tlc(res, 'Sql <=2 dumps x <=2 rows x 3 modes x bloom on/off x batch {1,1000}: ModeOK, Downstream, FlagsTruthful')
     cases = res.cases
+    cfg = tlc.write_cfg(os.path.join(wd, 'pinned.cfg'), constants={'MaxDumps': 2, 'MaxRows': 2, 'Batches': '{1, 1000}', 'WriterGetsCopy': 'FALSE', 'Converts': 'TRUE'},
+                        invariants=['AllDumpsOK'])
+    r0 = tlc.run_tlc('Sql', cfg)
+    if r0.violated != 'AllDumpsOK':
+        raise tlc.MachineryError('non-vacuity: Sql with WriterGetsCopy=FALSE (conversion in place) must violate AllDumpsOK/Downstream')
+    rep.notes['non_vacuity'] = 'Sql with WriterGetsCopy=FALSE, Converts=TRUE (the pinned in-place conversion) violates Downstream, as it must'
     if t == 'thorough':
-        cfg = tlc.write_cfg(os.path.join(wd, 'sim.cfg'), constants={'MaxDumps': 5, 'MaxRows': 3, 'Batches': '{1, 2, 1000}'},
+        cfg = tlc.write_cfg(os.path.join(wd, 'sim.cfg'), constants=dict({'MaxDumps': 5, 'MaxRows': 3, 'Batches': '{1, 2, 1000}'}, **fixed),
                             invariants=['AllDumpsOK'], constraints=['Export'])
         res = tlc.run_tlc('Sql', cfg, workers=1, simulate='num=1500', depth=60, seed=rep.seed + 1, allow_violation=False, timeout=6000)
         rep.add_tlc(res, 'Sql -simulate: 1500 behaviours, histories of up to 5 dumps x <=3 rows')
@@ -47,15 +58,16 @@ def model(rep, t):
 def cells(v):
     """the abstract value as a string cell, an array cell and an object cell: 'a' carries falsy items nested inside
     (0, False, '', [], {} must be stored as they are), 'b' is the EMPTY array / object, 'n' is null"""
-    if v == 'n':
-        return dict(v=None, arr=None, obj=None)
-    if v == 'b':
-        return dict(v=v, arr=[], obj={})
     import datetime
     from decimal import Decimal
+    if v == 'n':
+        return dict(v=None, arr=None, obj=None, dur=datetime.timedelta(days=1, seconds=5))
+    if v == 'b':
+        return dict(v=v, arr=[], obj={}, dur=datetime.timedelta(0))
     # nested decimals and dates are stored the way JSON can hold them: as a float and as ISO text
     return dict(v=v, arr=[v, 1, 0, False, '', [], {}, None, Decimal('1.5'), datetime.date(2020, 1, 2)],
-                obj=dict(x=v, zero=0, no=False, empty='', l=[], d={}, nul=None, dec=Decimal('2.5'), day=datetime.date(2021, 3, 4)))
+                obj=dict(x=v, zero=0, no=False, empty='', l=[], d={}, nul=None, dec=Decimal('2.5'), day=datetime.date(2021, 3, 4)),
+                dur=datetime.timedelta(hours=3))          # duration: a type SQLite holds as text (the writer's fallback)
 
 
 def jsonable(x):
@@ -92,6 +104,12 @@ def replay_history(item):
         for n, (d, lg) in enumerate(zip(c['hist'], c['log']), start=1):
             rows = [dict(k=r['k'], **cells(r['v'])) for r in d['rows']]
             fields = [('k', 'integer'), ('v', 'string'), ('arr', 'array'), ('obj', 'object')]
+            if variant.get('dur'):
+                fields.append(('dur', 'duration'))
+            else:
+                for r in rows:
+                    del r['dur']
+            existed = n > 1 and d['mode'] != 'rewrite'
             pk = ['k'] if variant['pk'] else None
             conf = {'resource-name': 't', 'mode': d['mode']}
             if not variant['pk']:
@@ -99,10 +117,17 @@ def replay_history(item):
             import copy
             with contextlib.redirect_stdout(io.StringIO()), contextlib.redirect_stderr(io.StringIO()):
                 other = [dict(q=1, w='keep'), dict(q=2, w=None)]
-                ds = Flow(tuple_source([('t', fields, copy.deepcopy(rows), pk), ('other', [('q', 'integer'), ('w', 'string')], copy.deepcopy(other))]),
-                          DF.dump_to_sql(dict(tbl=conf), engine=engine, updated_column='upd', batch_size=c['batch'],
-                                         use_bloom_filter=c['bloom'])).datastream()
-                streams = [[dict(r) for r in res] for res in ds.res_iter]
+                try:
+                    ds = Flow(tuple_source([('t', fields, copy.deepcopy(rows), pk), ('other', [('q', 'integer'), ('w', 'string')], copy.deepcopy(other))]),
+                              DF.dump_to_sql(dict(tbl=conf), engine=engine, updated_column='upd', batch_size=c['batch'],
+                                             use_bloom_filter=c['bloom'])).datastream()
+                    streams = [[dict(r) for r in res] for res in ds.res_iter]
+                except Exception as e:
+                    cause = getattr(e, 'cause', e)
+                    if variant.get('dur') and existed and rows and "type 'datetime.timedelta' is not supported" in str(cause):
+                        # listed finding: the storage layer only learns which columns need the text fallback when it CREATES the table
+                        return dict(ok=True, kf=0, kf_fallback=1, at=n)
+                    raise
                 down = streams[0]
                 if len(streams) != 2 or streams[1] != other:
                     return dict(ok=False, why='a resource that is not dumped does not pass through unchanged', got=streams[1:] )
@@ -121,6 +146,8 @@ def replay_history(item):
             if plain != [dict(k=r['k'], v=r['v']) for r in rows]:
                 return dict(ok=False, why='rows downstream of dump %d differ' % n, got=plain)
             for r, o in zip(down, rows):
+                if variant.get('dur') and (r.get('dur') != o['dur'] or type(r.get('dur')) is not type(o['dur'])):
+                    return dict(ok=False, why='duration cell downstream of dump %d differs' % n, got=repr(r.get('dur')), want=repr(o['dur']))
                 for col in ('arr', 'obj'):
                     if r.get(col) != o[col]:
                         if isinstance(r.get(col), str) and same_json(json.loads(r[col]), jsonable(o[col])):
@@ -148,7 +175,7 @@ def run():
     items = []
     for c in cases:
         allupd = all(d['mode'] == 'update' for d in c['hist'])
-        items.append(dict(case=c, variant=dict(pk=bool(allupd and r.random() < 0.5))))
+        items.append(dict(case=c, variant=dict(pk=bool(allupd and r.random() < 0.5), dur=r.random() < 0.3)))
     res = pmap(replay_history, items, chunksize=16)
     errs = harness_errors(res)
     if errs:
@@ -161,6 +188,8 @@ def run():
                                    **{k: v for k, v in out.items() if k != 'ok'}), category='%s' % out['why'][:50])
         elif out.get('kf'):
             rep.known(KF_JSON, 'array/object cells continue downstream as JSON text', dict(history=it['case']['hist']))
+        elif out.get('kf_fallback'):
+            rep.known(KF_FALLBACK, 'a duration column dumped onto a table that already exists', dict(history=it['case']['hist'], dump=out['at']))
     rep.sample(dict(history=items[0]['case']))
     rep.assumptions += ['keys are non-null; update histories start from a table with one row per key; append never meets a unique constraint (no primary key on the table unless every dump is an update)',
                         'array/object cells in the table are compared after JSON decoding (the sqlite representation)']
